@@ -361,6 +361,23 @@ def abort_case_st(draw):
     return {"kind": "abort", "program": prog, "how": how, "at": draw(st.integers(0, 10000))}
 
 
+@st.composite
+def autoretry_outline_case(draw):
+    """An outline patched as a whole whose rows end differently (placeholder step), next to plain scenarios."""
+    from ..program import PHRASE
+    rows = [[PHRASE[draw(st.sampled_from(["pass", "pass", "fail", "raise"]))]] for _ in range(draw(st.integers(2, 4)))]
+    outline = {"k": "o", "tags": [], "steps": [{"kw": "Given", "o": "pass"}, {"kw": "When", "o": "<x>"}],
+               "ex": [{"tags": [], "cols": ["x"], "rows": rows[:draw(st.integers(1, len(rows)))], "name": u""}]}
+    rest = rows[len(outline["ex"][0]["rows"]):]
+    if rest:
+        outline["ex"].append({"tags": [], "cols": ["x"], "rows": rest, "name": u"more"})
+    items = [outline]
+    if draw(st.booleans()):
+        items.insert(draw(st.integers(0, 1)), {"k": "s", "tags": [], "steps": [{"kw": "Given", "o": "pass"}]})
+    return {"kind": "autoretry", "program": {"features": [{"tags": [], "items": items}], "cfg": {}},
+            "attempts": draw(st.integers(2, 3)), "whole_outlines": draw(st.sampled_from([True, True, False]))}
+
+
 def explore(rec):
     quick = rec.tier == "quick"
     rec.enum("core-enumeration", core_enumeration())
@@ -376,6 +393,7 @@ def explore(rec):
                                                     "whole_outlines": w},
                                    c03.act_program(allow_bg_acts=False, with_interrupt=False), st.integers(2, 3),
                                    st.booleans()), 700 if quick else 15000)
+    rec.hyp("autoretry-outline-rows", autoretry_outline_case(), 400 if quick else 6000)
     rec.hyp("wip-flag", run_case_st(max_features=2, cfg=gen.cfg_st(flags=("wip_flag", "wip_flag", "dry_run"))),
             800 if quick else 15000)
 
